@@ -111,16 +111,15 @@ class LiquidTag(Tag):
 
     def parse(self, stream: TokenStream) -> Node:
         """Parse tokens from _stream_ into an AST node."""
-        token = stream.eat(TOKEN_TAG)
+        token = stream.expect(TOKEN_TAG)
         token_: Optional[Token] = None
 
-        if stream.current.kind == TOKEN_EOF:
-            # Empty liquid tag. Empty block.
+        if stream.peek.kind != TOKEN_EXPRESSION:
+            # Empty liquid tag. Empty block. Whatever follows belongs to the
+            # enclosing template or block, so leave it in the stream.
             block = BlockNode(token, [])
-        elif stream.current.kind == TOKEN_TAG:
-            parser = get_parser(self.env)
-            block = parser.parse_block(stream, end=())
         else:
+            next(stream)
             token_ = stream.expect(TOKEN_EXPRESSION)
             block = get_parser(self.env).parse_block(
                 TokenStream(
